@@ -351,6 +351,10 @@ pub fn iota_did(cex: &Value) -> Result<String, String> {
       format!("did:iota:{tag_l}?#"),
       format!("did:iota:{tag_l}/"),
       format!("did:iota:rms:{tag_l}#"),
+      format!("did:iota:0x0x{}", &tag_l[4..]),
+      format!("did:iota:rms:0x0x0x{}", &tag_l[6..]),
+      format!("did:iota:0x{}g", &tag_l[2..tag_l.len() - 1]),
+      format!("did:iota:x0{}", &tag_l[2..]),
     ];
     for s in &bad {
       if IotaDID::parse(s).is_ok() {
